@@ -2,15 +2,18 @@
 
 proof:          lean/PdshVerif/Props/C12.lean (receiver model of pcp_server.c:_sink as a byte automaton with an
                 explicit directory stack over a finite-map file system; confinement invariant for the receiver
-                with the scp name rule, decided escape witness for the unchanged one, frame property, reader
-                indices in bounds, every level unwound on every stream, malformed records answered)
+                with a name rule (the narrow repair "no `/`, not `..`" or the scp rule; the rule the code has is
+                probed), decided escape witness for the code as found, the repair changes nothing else, reader
+                indices in bounds, every level unwound on every stream, malformed/truncated input answered)
 correspondence: the REAL pcp_server() (ASan/UBSan harness, forked + chroot'ed per case) and, in the thorough tier,
-                the scratch-built `pdcp -z DEST` binary, fed generated hostile streams; reply classes and the
-                complete file system below the jail root are compared with `pdshmodel pcp sink`
+                the scratch-built `pdcp -z DEST` binary, fed generated hostile streams, about a tenth of them
+                under a file size limit (write faults); reply classes and the complete file system below the
+                jail root are compared with `pdshmodel pcp sink`
 oracle:         snapshot of the jail (destination AND everything around it) before/after: every created or
                 modified path must lie beneath the canonical destination (`pdshmodel pcp spec12`); a stream that
-                violates the record grammar must be answered with at least one error record; no crash, no
-                sanitizer report, no hang
+                violates the record grammar must be answered with at least one error record; after a write
+                fault the files that fit are intact and the failure is reported; no crash, no sanitizer
+                report, no hang
 """
 import os
 import re
